@@ -1085,6 +1085,10 @@ func BuildCLI(work, name string, tags string, race bool) (string, error) {
 	if race {
 		args = append(args, "-race")
 	}
+	if os.Getenv("VERIF_COVER") != "" {
+		// tools/coverage.sh: which desync code do the workloads reach (never set by the registered commands)
+		args = append(args, "-cover", "-coverpkg=github.com/folbricht/desync/...")
+	}
 	args = append(args, "./cmd/desync")
 	cmd := exec.Command("go", args...)
 	cmd.Dir = RepoDir
